@@ -490,6 +490,59 @@ func GenSequel(base []Case) []Case {
 	return out
 }
 
+// ---- F-capscope: capture groups belong to the pattern occurrence that defined them, on this line
+
+// GenCapScope: (a) two occurrences of a pattern (same or different text, same group name) applied with =~ to
+// different strings, nested or in sequence, the outer capture read before / after the inner block; (b) the same
+// pattern text in two top-level blocks; (c) a capture reached although its match was short-circuited away on
+// this line (a runtime error, whatever earlier lines matched).
+func GenCapScope() []Case {
+	var out []Case
+	outer := `^(?P<a>\S+) (?P<b>\S+)$`
+	pats := []string{`^k(?P<n>\w+)`, `^j(?P<n>\w+)`}
+	lines := []string{"k7 k9", "k3 zz", "j1 k2", "zz k5", "k4 j6", "plain"}
+	decls := []Decl{{Kind: "counter", Name: "hits", Keys: []string{"k"}, T: TInt}, {Kind: "counter", Name: "inner", Keys: []string{"k"}, T: TInt}}
+	a, b, n := Cap{"a", TString}, Cap{"b", TString}, Cap{"n", TString}
+	hit := Assign{Target: Ref{Name: "hits", Idx: []Expr{n}, T: TInt}, Op: "++"}
+	in := Assign{Target: Ref{Name: "inner", Idx: []Expr{n}, T: TInt}, Op: "++"}
+	for _, p1 := range pats {
+		for _, p2 := range pats {
+			innerC := Cond{C: Match{false, b, p2}, Then: []Stmt{in}}
+			shapes := [][]Stmt{
+				{Cond{C: Match{false, a, p1}, Then: []Stmt{innerC, hit}}},
+				{Cond{C: Match{false, a, p1}, Then: []Stmt{hit, innerC, hit}}},
+				{Cond{C: Match{false, a, p1}, Then: []Stmt{hit}}, innerC},
+				{Cond{C: Match{false, a, p1}, Then: []Stmt{hit}, Else: []Stmt{innerC}}},
+			}
+			for _, sh := range shapes {
+				out = append(out, Case{Family: "capture-scope", P: &Program{Decls: decls, Stmts: []Stmt{Cond{C: Pat{outer}, Then: sh}}}, Lines: lines})
+			}
+			// the same texts as line patterns of two top-level blocks
+			out = append(out, Case{Family: "capture-scope", P: &Program{Decls: decls, Stmts: []Stmt{
+				Cond{C: Pat{p1}, Then: []Stmt{hit}}, Cond{C: Pat{p2}, Then: []Stmt{in}},
+			}}, Lines: lines})
+		}
+	}
+	// short circuit: the capture is read although its pattern was not evaluated on this line
+	d2 := []Decl{{Kind: "counter", Name: "c", T: TInt}, {Kind: "counter", Name: "total", T: TInt}, {Kind: "counter", Name: "done", T: TInt}}
+	m := Cap{"m", TInt}
+	body := []Stmt{
+		Assign{Target: Ref{Name: "c", T: TInt}, Op: "++"},
+		Assign{Target: Ref{Name: "total", T: TInt}, Op: "+=", RHS: m},
+		Assign{Target: Ref{Name: "done", T: TInt}, Op: "++"},
+	}
+	l2 := []string{"add n5", "reset now", "reset n7", "add x", "plain"}
+	for _, op := range []string{"||", "&&"} {
+		for _, word := range []string{"reset", "add"} {
+			for _, neg := range []string{"==", "!="} {
+				cnd := Bin{op, Bin{neg, a, StrLit{word}}, Match{false, b, `^n(?P<m>\d+)$`}}
+				out = append(out, Case{Family: "capture-scope", P: &Program{Decls: d2, Stmts: []Stmt{Cond{C: Pat{outer}, Then: []Stmt{Cond{C: cnd, Then: body}}}}}, Lines: l2})
+			}
+		}
+	}
+	return out
+}
+
 // All returns every family.
 func All(thorough bool) []Case {
 	var out []Case
@@ -500,6 +553,7 @@ func All(thorough bool) []Case {
 	out = append(out, GenDeco()...)
 	out = append(out, GenDecl()...)
 	out = append(out, GenErr()...)
+	out = append(out, GenCapScope()...)
 	return out
 }
 
